@@ -41,7 +41,7 @@ def run(ctx):
     for r, t in [("R1", "dispatch table: every op variant reaches the handler of the reviewed table"), ("R2", "scalar semantics from asm.yml stack_out expressions"),
                  ("R3", "operand plumbing: pop order, f applied in order, push only on Ok; error index = pc before update"), ("R4", "memory readers cannot write")]:
         ctx.rule(r, t)
-    spec = T.load_spec(os.environ.get("ESSB_REPO", F.REPO))
+    spec = T.load_spec(ctx.repo)
     with open(os.path.join(F.VERIF, "tables", "dispatch.json")) as fh:
         frozen = json.load(fh)["table"]
     tab, arms = D.extract(prog)
